@@ -536,6 +536,8 @@ where
                                 "class" if !is_component => has_class_binding = true,
                                 "style" if !is_component => has_style_binding = true,
                                 "key" | "on" | "ref" => {}
+                                // merged through the `transformOn` helper below, not a prop of that name
+                                "nativeOn" if self.options.transform_on => {}
                                 _ => {
                                     dynamic_props.insert(attr_name.clone());
                                 }
